@@ -893,7 +893,22 @@ def make_long_case(ops, strata, rng, norbits=12, minpos=20, maxpos=120):
     return {"sites": [[str(v) for v in x] for x in pts], "seed": rng.randrange(10 ** 9)} if len(pts) >= 2 else None
 
 
-def finder_long_listing(sg, ops, case, pid):
+def translation_record(formula, pairs, real, which):
+    """One custom-symbol translation of the real code next to the line for the extracted scanner model (kind 9),
+    and whether the formula meets the well-formedness hypothesis of the translation theorem."""
+    def enc(t):
+        return [str(len(t))] + [str(ord(c)) for c in t]
+    toks = ["9", str(which), str(len(pairs))]
+    for k, v in pairs:
+        toks += enc(k) + enc(v)
+    toks += enc(formula)
+    pat = re.compile(r"(?<![A-Za-z0-9_])[xyz]\d+" if which == 1 else r"(?<![A-Za-z0-9_])U\d\d\d+")
+    rest = pat.sub("", formula)
+    wf = not any(c in rest for c in ("xyz" if which == 1 else "U")) and all(ord(c) < 128 for c in formula)
+    return {"line": " ".join(toks), "real": [ord(c) for c in real], "formula": formula, "wf": wf}
+
+
+def finder_long_listing(sg, ops, case, pid, tlog=None):
     """Custom-symbol forms and query histories of SymmetryConstraints on a long listing.  Yields (kind, message, data)."""
     from diffpy.structure.symmetryutilities import SymmetryConstraints, isconstantFormula
     rng = __import__("random").Random(case["seed"])
@@ -954,6 +969,12 @@ def finder_long_listing(sg, ops, case, pid):
     if pars:
         custom = custom_fn(syms)
         cpruned = pruned_fn(syms)
+        if tlog is not None:
+            pairs = [(sname, c) for (sname, _), c in zip(pars, syms)]
+            for i in list(range(min(n, 14))) + list(range(max(14, n - 6), n)):
+                for key in keys:
+                    if key in custom[i] and key in default[i]:
+                        tlog.append(translation_record(default[i][key], pairs, custom[i][key], 3 if want_u else 1))
         for i in range(n):
             if sorted(custom[i]) != sorted(keys):
                 yield ("custom-symbols", "%s.%s(%s=...)[%d] = %r" % (what, qname, argname, i, custom[i]), data)
